@@ -319,6 +319,10 @@ func Generate(r *rand.Rand, profile string) *Scenario {
 		if chance(0.5) {
 			t.min = t.size
 		}
+		if profile == "slots" && chance(0.3) {
+			// best-effort pods (no or negligible requests): the only thing they take is a pod slot
+			t.cpu, t.mem, t.gpu, t.frac, t.gpuMem, t.devs = pick(0, 0, 5), pick(0, 0, 5), 0, 0, 0, 0
+		}
 		if profile == "mixed" || profile == "slots" {
 			if chance(0.15) {
 				t.initCpu = pick(1000, 2000, 3000, 4000)
